@@ -72,24 +72,16 @@ class Pending(Monitor):
         for tagger in ctx.taggers:
             if any(ctx.kind(h) == "start_of_run" for h in tagger.get_event_handlers()):
                 continue    # one-shot: never re-created, not among the taggers the property speaks about
-            live = [canonical(i) for i in tagger.yield_identifiers_send_event_time(active_state)]
             if self.active.get(tagger.tag, True):
-                # what the activated tagger generates (class-level method: independent of the instance's switch)
+                # what the activated tagger generates: the class-level generator, independent of how (method swap,
+                # flag, ...) the instance implements activation
                 fresh = [canonical(i) for i in type(tagger).yield_identifiers_send_event_time(tagger, active_state)]
-                if self._is_interaction(tagger):
-                    if Counter(live) != Counter(fresh):
-                        ctx.violation("C09", "activated_tagger_does_not_generate_its_in_states",
-                                      {"tagger": tagger.tag, "generates": live[:5], "should_generate": fresh[:5]})
-                elif len(live) != len(fresh):
-                    ctx.violation("C09", "activated_tagger_does_not_generate_its_in_states",
-                                  {"tagger": tagger.tag, "generates": len(live), "should_generate": len(fresh)})
                 ctx.probes["c09_checks_of_activated_taggers"] += 1
             else:
-                fresh = []
-                if live:
-                    ctx.violation("C09", "deactivated_tagger_generates_in_states",
-                                  {"tagger": tagger.tag, "generates": live[:5]})
-                ctx.probes["c09_checks_of_deactivated_taggers"] += 1
+                # a deactivated tagger creates nothing; whether candidates it computed earlier are still pending depends
+                # on the wiring (they stay until an event that changes a motion trashes them) and is not judged
+                ctx.probes["c09_deactivated_taggers_skipped"] += 1
+                continue
             pending = by_tagger.get(tagger, [])
             owned = len(tagger.get_event_handlers())
             if len(fresh) > owned:
